@@ -2,7 +2,8 @@
 
 Values are tuples: ('n',) ('b',bool) ('s',bytes) ('i',int) ('u',int) ('d',bits) ('a',[v]) ('o',[(key,v)]) with
 object members strictly sorted by key bytes."""
-import random, struct
+import random, struct, sys
+sys.setrecursionlimit(max(sys.getrecursionlimit(), 20000))   # values nested a few hundred deep are generated
 
 # ---------------------------------------------------------------- README constants (literal, independent of /repo)
 ARRAY_TAG, OBJECT_TAG, SCALAR_TAG = 0x80000000, 0x40000000, 0x20000000
